@@ -1,5 +1,6 @@
 import CkbVerif.Driver.Util
 import CkbVerif.Model.Cycles
+import CkbVerif.Driver.C05Sched
 
 /-! Line-protocol driver for C05 (protocol: harness/n05/src/c05.rs). -/
 namespace CkbVerif.Driver.C05
@@ -128,6 +129,8 @@ def step (s : St) (ts : List String) : St × String :=
         else ({ groups := g }, "typeid-cost-mismatch")
       | none => (s, "bad-op")
     | "note" :: _ => (s, "ok")
+    -- the scheduler bookkeeping model replayed on the observed VM runs and messages
+    | "sched" :: rest => (s, C05Sched.schedOp rest)
     | [op, b] =>
       -- `sig`: resumable_verify_with_signal with no signal ever sent = the one-shot run (Props/C05
       -- signal_budget_ge_eq_unlimited / the empty pause schedule)
